@@ -51,6 +51,41 @@ Theorem C13_can_return : forall max ls s, run (init max) ls = Some s ->
   exists ls' s' r, run s ls' = Some s' /\ returned s' = Some r.
 Proof. exact execute_can_return. Qed.
 
+(* ---- virtual time: what the correspondence check runs ------------------------------------- *)
+
+(* every observation the timed model can produce (any tie resolution) satisfies the property,
+   stated on observable quantities only: with n = number of executions started, finish k =
+   start k + duration k:  1 <= n <= 1 + max, and
+   EITHER some started execution j has a real answer (Success/Definitive), the call returns it at
+          finish j, and no started execution with a real answer finishes earlier,
+   OR     no started execution has a real answer, the call returns exactly when the last one
+          finishes, none may still be started (n = 1 + max or one reported an exhausted plan),
+          and the value is EmptyPlan if none failed ignorably, else the ignorable error of an
+          execution that finished last among those *)
+Theorem C13_accept_sound : forall max interval fs o,
+  accept max interval fs o = true -> PropObs max fs (o_starts o) (o_res o) (o_end o).
+Proof. exact accept_sound. Qed.
+
+(* the boolean predicate evaluated by the driver on a mismatch is that proposition *)
+Theorem C13_prop_obs_spec : forall max fs sts r e,
+  prop_obs max fs (mkObs sts r e) = true <-> PropObs max fs sts r e.
+Proof. exact prop_obs_spec. Qed.
+
+(* accepted observations are exactly the model's; each is the final state of a schedule of the
+   interleaving semantics above (so C13_bound/result/... apply to it) *)
+Theorem C13_accept_schedule : forall max interval fs o,
+  accept max interval fs o = true ->
+  exists ls s, run (init max) ls = Some s /\ returned s = Some (o_res o) /\
+               started s = List.length (o_starts o).
+Proof. exact accept_schedule. Qed.
+
+(* for EVERY tie-breaking oracle the timed model returns (it never waits on nothing and never
+   runs out of fuel), and what it returns is accepted *)
+Theorem C13_accept_complete : forall max interval fs oracle,
+  exists o, timed_run (fuel_for max) oracle interval fs (tinit max interval) = Some o /\
+            accept max interval fs o = true.
+Proof. exact accept_complete. Qed.
+
 (* non-vacuity: concrete schedules *)
 Definition ex_ign : rres := Err (LastAttemptError UnableToAllocStreamId).
 Definition ex_def : rres := Err (LastAttemptError (DbError Invalid)).
@@ -71,6 +106,18 @@ Example C13_ex_schedule :
   run (init 1) [Complete 1 None] = None.
 Proof. repeat split; vm_compute; reflexivity. Qed.
 
+Example C13_ex_timed :
+  (* the three paused-clock tests of the repository, as model runs *)
+  map o_end (timed_runs 5 1%N [(5%N, Some ex_ign); (5%N, Some ex_ign); (5%N, Some ex_ign); (5%N, Some ex_ign)]) = [8%N; 8%N] /\
+  map o_end (timed_runs 5 6%N [(5%N, Some ex_ign); (5%N, Some ex_ign); (5%N, Some ex_ign); (5%N, Some ex_ign)]) = [24%N] /\
+  (* a tie between the timer and a real answer: with the timer first one more execution starts *)
+  timed_runs 1 2%N [(2%N, Some (Ok 1%N)); (3%N, Some (Ok 2%N))]
+    = [mkObs [0%N; 2%N] (Ok 1%N) 2%N; mkObs [0%N] (Ok 1%N) 2%N] /\
+  accept 1 2%N [(2%N, Some (Ok 1%N)); (3%N, Some (Ok 2%N))] (mkObs [0%N] (Ok 1%N) 2%N) = true /\
+  accept 1 2%N [(2%N, Some (Ok 1%N)); (3%N, Some (Ok 2%N))] (mkObs [0%N; 2%N] (Ok 2%N) 5%N) = false /\
+  prop_obs 1 [(2%N, Some (Ok 1%N)); (3%N, Some (Ok 2%N))] (mkObs [0%N; 2%N] (Ok 2%N) 5%N) = false.
+Proof. repeat split; vm_compute; reflexivity. Qed.
+
 Print Assumptions C13_ignorable_table.
 Print Assumptions C13_bound.
 Print Assumptions C13_result.
@@ -79,3 +126,7 @@ Print Assumptions C13_measure.
 Print Assumptions C13_terminates.
 Print Assumptions C13_always_returns.
 Print Assumptions C13_can_return.
+Print Assumptions C13_accept_sound.
+Print Assumptions C13_prop_obs_spec.
+Print Assumptions C13_accept_schedule.
+Print Assumptions C13_accept_complete.
